@@ -6,11 +6,10 @@ from core import Case, nlist
 from pyerr import canon_call, exc_code
 
 PROP = 'C07'
-COQ_TARGETS = ['theories/ApciFacts.vo', 'theories/ApciHdr.vo']
+COQ_TARGETS = ['theories/ApciFacts.vo', 'theories/ApciHdr.vo', 'theories/ApciDec.vo', 'theories/ApciTypes.vo']
 COQ_IMPORTS = 'From Bac Require Import Base PyRt Apci.\nFrom BacGen Require Import ApduFns.'
-TABLE_OBLIGATIONS = ['maxsegs_round_down', 'maxsegs_refuse_below', 'maxsegs_unspecified', 'maxsegs_greatest',
-                     'maxapdu_round_down', 'maxapdu_refuse_below', 'maxapdu_greatest',
-                     'tables_inverse', 'maxsegs_decode_table', 'maxapdu_decode_table', 'maxapdu_decode_reserved']
+TABLE_OBLIGATIONS = ['maxsegs_table_std', 'maxapdu_table_std', 'enc_ms_eq', 'enc_ml_eq', 'dec_ms_range', 'dec_ml_range',
+                     'dec_ms_values', 'dec_ml_values', 'maxsegs_encode_total', 'maxsegs_unspecified', 'tables_never_up']
 RULE = ('cases: APDU.encode on headers of all eight types — flag bits x all 8x16 code points (confirmed request) x octet fields from '
         '{0,1,127,128,255} (full cross product for the small types, one random boundary assignment per flag/code combination for '
         'confirmed requests, a sample of the complex-ack product in the quick tier), each followed by APDU.decode of the octets produced '
@@ -300,7 +299,7 @@ def malformed_headers(rng):
     return out
 
 
-SECONDS = [0, 1, 2, 15, 16, 17, 0x70, 0x7F, 0x80, 0x8F, 0xF0, 127, 128, 254, 255]
+SECONDS = [0, 1, 15, 16, 0x7F, 0x80, 0x8F, 0xF0, 255]
 
 
 def table_args(rng, tier):
@@ -334,7 +333,7 @@ def cases(rng, tier):
             both(h, 'enc-' + TYPE_NAMES[ty])
     ca = list(product_headers(3))
     if not big:
-        ca = rng.sample(ca, 700)
+        ca = rng.sample(ca, 400)
     for h in ca:
         both(h, 'enc-complex_ack')
     for _ in range(3000 if big else 400):
@@ -342,7 +341,7 @@ def cases(rng, tier):
     for h in malformed_headers(rng):
         out.append(case_enc(h, rand_payload(rng), 'enc-malformed'))
     # truncations of valid encodings (short buffers -> DecodingError via PDUData.get)
-    for bs in rng.sample(encoded, min(len(encoded), 1500 if big else 250)):
+    for bs in rng.sample(encoded, min(len(encoded), 1500 if big else 150)):
         for k in range(len(bs)):
             out.append(case_dec(bs[:k], 'dec-truncated'))
     # exhaustive short strings
@@ -353,10 +352,10 @@ def cases(rng, tier):
         if big:
             seconds = range(256)
         else:
-            seconds = SECONDS + [rng.randrange(256) for _ in range(3)]
+            seconds = SECONDS + [rng.randrange(256) for _ in range(2)]
         for b in seconds:
             out.append(case_dec(bytes([a, b]), 'dec-exh'))
-    for _ in range(20000 if big else 1500):
+    for _ in range(20000 if big else 1000):
         n = rng.choice([3, 3, 4, 5, 6, 7, 10])
         bs = bytearray(rng.randrange(256) for _ in range(n))
         if rng.random() < 0.7:
@@ -466,8 +465,9 @@ def check_arbitrary(bs):
         return {'kind': 'decode-payload-not-suffix', 'octets': bs.hex(), 'rest': rest.hex()}, False
     for k in relevant(d):
         v = d[k]
-        if v is None or (k not in FLAGS and not (0 <= v <= 255)):
-            return {'kind': 'decode-field-missing', 'octets': bs.hex(), 'field': k, 'decoded': _show(d)}, False
+        width = {'apduMaxSegs': 8, 'apduMaxResp': 16}.get(k, 256)      # clause 20.1: 3-bit / 4-bit / octet fields
+        if v is None or (k in FLAGS and not isinstance(v, bool)) or (k not in FLAGS and not (0 <= v < width)):
+            return {'kind': 'decode-field-missing-or-wide', 'octets': bs.hex(), 'field': k, 'decoded': _show(d)}, False
     return None, True
 
 
